@@ -152,3 +152,71 @@ def limb_split_consistent(chk, dirs, rule='limb-split-single-source'):
                           'a run of stores x & m, (x >> w) & m, ... ends with a limb taken from another variable (copy/paste slip): the encoded integer is wrong '
                           'whenever the two variables differ in those bits', key='%s %s %s' % (rule, fn, i.get('line')))
     chk.ok(rule, 'every limb split under %s takes all limbs from one variable (%d functions; positive control matched)' % (', '.join(dirs), n), dirs[0], nontrivial=False)
+
+
+def _tail_copies(F):
+    """memcpy calls inside a loop whose source is the loop-invariant input parameter (or param + constant) although the same loop
+    advances a running pointer over that parameter"""
+    inloop = F.loops_blocks()
+    if not inloop:
+        return [], 0
+    # running pointers: phis in loop blocks with an incoming value rooted at a parameter and another that is GEP(phi, non-zero)
+    running = {}
+    pphis = {i['id']: i for i in F.insts.values() if i['op'] == 'phi' and i['ty'].endswith('*') and F.block_of[i['id']] in inloop}
+    for pid, i in pphis.items():
+        seen, st = {pid}, [pid]
+        roots, adv = set(), False
+        while st:
+            q = st.pop()
+            for o in pphis[q]['ops']:
+                if o['k'] not in ('i', 'a'):
+                    continue
+                b, off = F.addr_of(o)
+                if b['k'] == 'a':
+                    roots.add(b['v'])
+                elif b['k'] == 'i' and b['v'] in pphis:
+                    if off != 0:
+                        adv = True
+                    if b['v'] not in seen:
+                        seen.add(b['v'])
+                        st.append(b['v'])
+        if adv and len(roots) == 1:
+            running.setdefault(next(iter(roots)), []).append(i)
+    res = []
+    n = 0
+    for c in F.calls():
+        cal = c.get('callee') or ''
+        if not cal.startswith(('llvm.memcpy', 'llvm.memmove', 'memcpy')) or F.block_of[c['id']] not in inloop or len(c['ops']) < 3:
+            continue
+        b, off = F.addr_of(c['ops'][1])
+        if b['k'] == 'a' and b['v'] in running and off is not None and c['ops'][2]['k'] != 'c':
+            n += 1
+            res.append(c)
+        elif b['k'] == 'i' and any(b['v'] == p['id'] for ps in running.values() for p in ps):
+            n += 1
+    return res, n
+
+
+def tail_copy_from_running_pointer(chk, dirs, rule='tail-copy-from-running-pointer'):
+    """chunked processing (GHASH, CBC-MAC, Poly1305, hash updates): the partial last block is copied into a local buffer from the *running*
+    pointer; copying a variable number of bytes from the unadvanced input parameter inside a loop that advances a pointer over that same
+    parameter takes the tail from the start of the data"""
+    C = _control()
+    if not _tail_copies(C.func('lintbad_tail_copy'))[0] or _tail_copies(C.func('lintgood_tail_copy'))[0]:
+        raise AnalysisBroken('lint controls for %s: positive not matched or negative matched' % rule)
+    P = wmw.program()
+    n = 0
+    for (un, fn), F in sorted(P.static.items()):
+        f = F.file().replace(build.REPO + '/', '')
+        if not any(f.startswith(d) for d in dirs):
+            continue
+        bad, k = _tail_copies(F)
+        n += k
+        for c in bad:
+            chk.violation(rule, '%s: partial-block copy reads from the running pointer' % fn, F.where(c),
+                          'the copy takes its bytes from the start of the input although the loop has advanced past full blocks: for inputs longer than one block '
+                          'the last partial block is wrong', key='%s %s %s' % (rule, fn, c.get('line')))
+    chk.count('in-loop copies from a running input pointer examined by %s' % rule, n)
+    chk.ok(rule, 'every in-loop partial-block copy under %s reads from the running pointer (%d copies; controls matched)' % (', '.join(dirs), n), dirs[0], nontrivial=False)
+    if n < 3:
+        raise AnalysisBroken('%s: only %d copies examined under %s' % (rule, n, dirs))
